@@ -207,6 +207,11 @@ pub fn extract_hevc_config(data: &[u8]) -> Option<HevcConfig> {
 
     // Verify we found all required parameter sets
     if let (Some(vps_data), Some(sps_data), Some(pps_data)) = (vps, sps, pps) {
+        // hvcC stores each parameter set behind a 16-bit length; longer ones cannot be carried.
+        let max = usize::from(u16::MAX);
+        if vps_data.len() > max || sps_data.len() > max || pps_data.len() > max {
+            return None;
+        }
         assert_invariant!(
             !vps_data.is_empty() && !sps_data.is_empty() && !pps_data.is_empty(),
             "INV-502: HEVC VPS, SPS, and PPS must be non-empty"
